@@ -220,7 +220,7 @@ def run():
             keylog.extend(keylog_reader.get_keys_from_string(buf.decode('ascii')))  # adds secrets from decryption secret block to keylog
             continue
 
-        packet = Packet(buf, ts)
+        packet = Packet(buf, float(ts))  # dpkt yields Decimal timestamps for nanosecond pcap files
 
         if packet.tcp_packet:
             if len(packet.tls_data) == 0:
